@@ -24,7 +24,7 @@ static void body(Env& env, const std::string& stage, int n, const dom::Alphabet&
     if (eA || eB) c.count("class_empty_operand");
     if (dom::hasUseless(A) || dom::hasUseless(B)) c.count("class_useless_states");
     if (c.wantSample() && !eI && A != B && w >= 4) c.sample("A: " + D->str(A) + " | B: " + D->str(B));
-    ExplicitTreeAut a = dom::build(A), b = dom::build(B);
+    ExplicitTreeAut a = dom::build(A), b = dom::build(B, true);   // rhs built the other way round (finals first, descending): every automaton occurs on both sides of some pair
     auto D_ = D;
     auto det = [&](const std::string& extra) { return "A: " + D_->str(A) + " | B: " + D_->str(B) + " | " + extra + "\n--- A (timbuk)\n" + dom::timbuk(A, D_->sig, "A") + "--- B (timbuk)\n" + dom::timbuk(B, D_->sig, "B"); };
     auto unchanged = [&](const char* sub) { if (dom::readBack(a) != A || dom::readBack(b) != B) c.viol(sub, "operand_changed", {}, det(""), w); };
